@@ -76,13 +76,17 @@ VOP3bOps == {281, 282, 283, 284, 285, 286, 480, 481, 488}    \* Disassembler.isV
 \* An operand is <<kind, a, b, c>>:
 \*   <<"reg", code, width, 0>>   code = ISA operand code: 0..101 s#, 102..127 special
 \*                               scalar registers, 251..253 vccz/execz/scc, 256..511 v#
-\*   <<"int", value, 0, 0>>  <<"float", code 240..248, 0, 0>>  <<"lit", hi, lo, 0>>
+\*   <<"int", value, width, 0>>  <<"float", code 240..248, width, 0>>  <<"lit", hi, lo, width>>
+\* width = the register count the decoder attaches to the operand (insts.Operand.RegCount,
+\* 0 and 1 both meaning one dword).  Constants carry it too: emu/timing ReadOperand sizes the
+\* value it returns by it, and every decode must produce its own width - an operand object
+\* shared between instructions would let one decode change what another one returned.
 None == <<"none", 0, 0, 0>>
 Bad  == <<"bad", 0, 0, 0>>
 Reg(code, n) == <<"reg", code, n, 0>>
 VReg(i, n) == Reg(256 + i, n)
-IntOp(v) == <<"int", v, 0, 0>>
-LitPlaceholder == <<"lit", 0, 0, 0>>
+IntOp(v) == <<"int", v, 1, 0>>
+LitPlaceholder == <<"lit", 0, 0, 1>>
 
 \* insts.getOperand: the operand-code map (reserved codes -> Bad)
 Opnd(c) ==
@@ -92,7 +96,7 @@ Opnd(c) ==
   ELSE IF c = 124 \/ c = 126 \/ c = 127 THEN Reg(c, 1)   \* m0, exec_lo, exec_hi
   ELSE IF c >= 128 /\ c <= 192 THEN IntOp(c - 128)
   ELSE IF c >= 193 /\ c <= 208 THEN IntOp(192 - c)
-  ELSE IF c >= 240 /\ c <= 248 THEN <<"float", c, 0, 0>>
+  ELSE IF c >= 240 /\ c <= 248 THEN <<"float", c, 1, 0>>
   ELSE IF c >= 251 /\ c <= 253 THEN Reg(c, 1)
   ELSE IF c = 255 THEN LitPlaceholder
   ELSE IF c >= 256 /\ c <= 511 THEN Reg(c, 1)
@@ -106,10 +110,12 @@ IsRange(o) == o[1] = "range"
 
 IsLit(o) == o[1] = "lit"
 IsBad(o) == o[1] = "bad"
-\* set the width (register count) of a register operand
-W(o, n) == IF o[1] = "reg" THEN <<"reg", o[2], n, 0>> ELSE o
+\* set the width (register count) of an operand
+W(o, n) == CASE o[1] \in {"reg", "int", "float"} -> <<o[1], o[2], n, 0>>
+            [] o[1] = "lit" -> <<"lit", o[2], o[3], n>>
+            [] OTHER -> o
 \* fill in the literal dword
-L(o, w1) == IF o[1] = "lit" THEN <<"lit", w1[1], w1[2], 0>> ELSE o
+L(o, w1) == IF o[1] = "lit" THEN <<"lit", w1[1], w1[2], o[4]>> ELSE o
 Wd(bits) == IF bits = 64 THEN 2 ELSE 1
 
 \* ------------------------------------------------------------- results
